@@ -84,6 +84,11 @@ func execHistory(c HistoryCase) (v ev.Verdict) {
 		req := projsim.BuildReq{Label: label, Always: op.Always, DryRun: op.Dry}
 		if op.Child {
 			res = sim.ChildBuild(req)
+		} else if op.Watch && !op.Dry {
+			// on the history's long-lived Project: Reload + Run, as watch mode does, while other builds of the
+			// history come from fresh loads and other processes (a `dawn build` in another terminal)
+			res = sim.WatchBuild(req)
+			v.Classes = append(v.Classes, "build:watch-reload")
 		} else {
 			res = sim.Build(req)
 		}
@@ -215,7 +220,11 @@ func genHistory(t *rapid.T) HistoryCase {
 		case 4:
 			ops = append(ops, projsim.Op{Kind: "load", I: rapid.IntRange(0, 1).Draw(t, "lidx")})
 		default:
-			ops = append(ops, projsim.GenBuild(t, true, true, true))
+			b := projsim.GenBuild(t, true, true, true)
+			if !b.Child && !b.Dry && rapid.IntRange(0, 2).Draw(t, "watch") == 2 {
+				b.Watch = true
+			}
+			ops = append(ops, b)
 		}
 	}
 	return HistoryCase{M: m, Ops: ops}
